@@ -1273,6 +1273,18 @@ fn report_duplicate_names<'a>(names: impl Iterator<Item = &'a str>) -> AnalyzeRe
         .collect()
 }
 
+/// Transactions are looked up by their exact name (`lowering::lower`, the interface file):
+/// of two transactions with one name only the first is ever lowered, while the interface
+/// describes the last.
+fn report_repeated_tx_names(txs: &[TxDef]) -> AnalyzeReport {
+    let mut seen = std::collections::HashSet::new();
+
+    txs.iter()
+        .filter(|tx| !seen.insert(tx.name.value.as_str()))
+        .map(|tx| Error::DuplicateDefinition(tx.name.value.clone()))
+        .collect()
+}
+
 impl Analyzable for TxDef {
     fn analyze(&mut self, parent: Option<Rc<Scope>>) -> AnalyzeReport {
         // analyze static types before anything else
@@ -1450,7 +1462,8 @@ impl Analyzable for Program {
                     .iter()
                     .flat_map(|env| env.fields.iter())
                     .map(|x| x.name.as_str()),
-            );
+            )
+            + report_repeated_tx_names(&self.txs);
 
         parties + policies + types + aliases + txs + assets + duplicates
     }
